@@ -24,7 +24,7 @@ MACHINES = {
 # a run that does not return within the bound is a violation where returning is
 # part of the property, a harness error elsewhere
 TIMEOUT_IS_VIOLATION = {'C18', 'C12', 'C19', 'C20'}
-RUN_TIMEOUT_S = 20.0
+RUN_TIMEOUT_S = 60.0
 
 TIERS = {
     # property: (quick runs, thorough runs)
